@@ -122,6 +122,17 @@ impl MatchedArg {
             .push(raw_val);
     }
 
+    /// Forget every value whose raw form is `raw_val`, dropping occurrences left empty
+    pub(crate) fn remove_raw_val(&mut self, raw_val: &OsStr) {
+        for (vals, raw_vals) in self.vals.iter_mut().zip(self.raw_vals.iter_mut()) {
+            let mut keep = raw_vals.iter().map(|raw| raw != raw_val);
+            vals.retain(|_| keep.next().unwrap_or(true));
+            raw_vals.retain(|raw| raw != raw_val);
+        }
+        self.vals.retain(|vals| !vals.is_empty());
+        self.raw_vals.retain(|raw_vals| !raw_vals.is_empty());
+    }
+
     pub(crate) fn num_vals(&self) -> usize {
         self.vals.iter().map(|v| v.len()).sum()
     }
